@@ -106,7 +106,10 @@ def reset_peer_runs(ctx, n):
             ops.append({"op": "send", "id": sender, "n": payload})
         elif closer == "none":
             closer = "client" if stream == "upstream" else "upstream"
-        if closer != "none" and (payload == 0 or rng.chance(1, 2)):
+        if payload == 0:
+            # nothing is sent: the sender's close is what the toxic's timeout counts from
+            ops.append({"op": "close", "id": sender, "how": "half"})
+        elif closer != "none" and rng.chance(1, 2):
             if (closer == "client") == (stream == "upstream"):
                 ops.append({"op": "close", "id": sender, "how": "half"})
         ops.append({"op": "recv", "id": receiver, "up": sender, "n": max(payload, 1), "ms": T + 1500})
